@@ -162,8 +162,16 @@ def eval_case(cfg):
     # vacuity guard: the same search, one weight higher, must see the listed logical of weight d
     if d == wmin and table_size(n, (d + 1) // 2, 1 if css else 3) * (2 if css else 1) <= cfg['cap']:
         if not run(d + 1):
-            raise RuntimeError('search at weight <= d did not find the listed logical of weight d: %r' % (cfg,))
-        res['extra']['witness_search_confirmed'] = 1
+            lw = [l for l in L if gf2.weight(l, n) == wmin][0]
+            if gf2.syndrome(H, lw, n) != 0:
+                # the operator the reported d is the weight of is not a logical at all, and the complete
+                # search up to weight d found no non-trivial logical: the true distance is not d
+                V.append({'key': dict(key, kind='no-logical-of-weight-d-exists-listed-one-anticommutes-with-generators'),
+                          'detail': {'d': d, 'listed': gf2.int_to_pauli_string(lw, n)[:150]}})
+            else:
+                raise RuntimeError('search at weight <= d did not find the listed logical of weight d: %r' % (cfg,))
+        else:
+            res['extra']['witness_search_confirmed'] = 1
     res['nontrivial'] = 1 if target >= 2 else 0
     res['extra']['covered_cases'] = 1
     res['outcomes'] = ['%s|d=%d|css=%s' % (cfg['cls'], d, css)]
